@@ -297,11 +297,29 @@ def scale_leads(obj, f):
     return o
 
 
+LIST_OPTIONS = ("t", "d", "tod", "o", "l", "lx")
+
+
+def respell_options(obj):
+    """Dataset.tla takes the value of -t / -d / -tod / -o / -l / -lx as a SET: the same option spelled in another order and with
+    every value given twice (-l 3,2,3,2 for {2, 3}; overlapping ranges on a command line do that) selects the same cases."""
+    o = dict(obj)
+    opts = dict(o["opts"])
+    for name in LIST_OPTIONS:
+        if name in opts.get("given", []) and opts.get(name):
+            vals = list(opts[name])[::-1]
+            opts[name] = vals + vals
+    o["opts"] = opts
+    return o
+
+
 def check_dataset(job):
     """job = (obj, fmt, variant, fresh_per_request). Returns dict(n, divs, nontrivial)."""
     obj, fmt, variant, fresh = job
     if (variant or {}).get("lead_scale"):
         obj = scale_leads(obj, variant["lead_scale"])
+    if (variant or {}).get("opt_spelling") == "repeat":
+        obj = respell_options(obj)
     out = {"n": 0, "divs": [], "nontrivial": nontrivial_c01(obj)}
     base = {"kind": "dataset", "format": fmt, "variant": {k: v for k, v in (variant or {}).items() if k != "rng"},
             "dataset": {k: obj[k] for k in obj if k != "req"}}
